@@ -1017,7 +1017,9 @@ def case_pipeline(ctx, b_corr, b_nz, b_cov, b_rerun, spec, tag, ks=None, b_der=N
         cds = {}
         for which, cf in res.items():
             cds[which] = case_corr(ctx, b_corr, b_cov, cf_spec(cf, spec), obj=cf, label="pipeline/%s/%s" % (which, profile))
-            if b_der is not None and spec.get("derived"):       # the measured CorrFunc, patches selected, then sampled
+            # the measured CorrFunc, patches selected, then sampled (dyadic stored counts only: the model of rounded
+            # counts costs seconds per case and is exercised above)
+            if b_der is not None and spec.get("derived") and spec["rweight"] is None:
                 case_dcorr(ctx, b_der, None, dict(cf_spec(cf, spec), ops=spec["derived"], pattern="patches",
                                                   item_kind=spec["derived_item"], pipeline=spec), obj=cf,
                            label="derived/pipeline/%s/%s/%s" % (which, spec["derived_item"], profile))
@@ -1210,6 +1212,7 @@ def gen_ops(rng, what, B, N, auto, names, pattern=None, item_kind=None):
         return dict(op="iter_bins", b=b)
 
     def add(how):
+        how = "+" if what == "corr" else how          # CorrFunc has no __radd__: sum([...]) of CorrFuncs is not offered
         return dict(op="add", how=how, other={k: jk.tolist(jk.gen_counts(rng, shape[0], shape[1], "dense", auto)) for k in names})
 
     def mul():
@@ -1531,7 +1534,7 @@ def run(ctx):
     b_nz = jk.Batch(ctx, "Cases_C03_nz", shard=40)
     b_hist = jk.Batch(ctx, "Cases_C03_hist", shard=80)
     b_rerun = BatchX(ctx, "Cases_C03_rerun", shard=80)
-    b_der = BatchX(ctx, "Cases_C03_derived", shard=16)
+    b_der = BatchX(ctx, "Cases_C03_derived", shard=8)
     f10b_probe(ctx, b_hist, b_cov)
     large_n_probe(ctx)
     undefined_probe(ctx, b_corr, b_nz, b_cov)
